@@ -58,7 +58,7 @@ def gen_obj(schema, cls: str, R: random.Random, depth: int = 0, profile: str = "
             ln = 0 if depth >= 2 else (R.choice([0, 0, 1, 2, 3]) if profile != "dense" else R.choice([1, 2, 3]))
             o[n] = [gen_obj(schema, m["cls"], R, depth + 1, profile, pool) for _ in range(ln)]
         elif k == "enum":
-            o[n] = R.randrange(len(schema["classes"][cls]["enums"][m["enum"]]))
+            o[n] = R.randrange(m.get("nvalues") or len(schema["classes"][cls]["enums"][m["enum"]]))
         elif k == "fn":
             pass
     for flag, link in LINK_FLAGS.items():
